@@ -2339,6 +2339,10 @@ def bits_method(fr, b: ABits, name, args, kw, n):
         for i in range(0, len(items) - len(items) % 8, 8):
             items[i:i + 8] = reversed(items[i:i + 8])
         return None
+    if name == "sum" and b.kind == "np" and not args and not kw:
+        # sum of a 0/1 vector: its population count (a constant where every bit is one on this path)
+        bs_ = I.simp_bits(b.items)
+        return sum(x.c for x in bs_) if all(isinstance(x, F) and x.is_const for x in bs_) else APop(bs_)
     if name == "setall":
         c = const_of(fr, args[0])
         b.items[:] = [cbit(c)] * len(b.items)
@@ -2704,6 +2708,26 @@ def external(fr, name, args, kw, n):
         return AInt([acc])
     if name in ("numpy.sum", "numpy.count_nonzero"):
         return fn_int(fr, short, [ABits(fr.to_bitlist(args[0]), "seq")], 16)
+    if name in ("bisect.bisect_left", "bisect.bisect_right", "bisect.bisect") and len(args) == 2 and not kw and isinstance(args[0], (list, tuple)) \
+            and all(isinstance(x, int) and not isinstance(x, bool) for x in args[0]) and list(args[0]) == sorted(args[0]):
+        # position of a (symbolic) integer in a sorted constant table: decided entry by entry with the exact ordering comparison
+        x_ = args[1]
+        if not is_abs(x_):
+            import bisect as _bisect
+            return getattr(_bisect, short)(list(args[0]), x_)
+        pos = 0
+        for e_ in args[0]:
+            beyond = compare(fr, ast.Gt() if short == "bisect_left" else ast.GtE(), x_, e_, n)
+            if I.decide(beyond, f"bisect:{getattr(n, 'lineno', 0)}"):
+                pos += 1
+            else:
+                break
+        return pos
+    if name == "numpy.flatnonzero" and len(args) == 1 and isinstance(args[0], (ABits, AView)):
+        bs_ = I.simp_bits(args[0].items if isinstance(args[0], ABits) else args[0].get())
+        if all(isinstance(x, F) and x.is_const for x in bs_):
+            return [i_ for i_, x in enumerate(bs_) if x.c]      # positions of the ones of a vector that is constant on this path
+        raise Abort("numpy.flatnonzero of a symbolic vector")
     if name == "numpy.array_equal":
         return eq(fr, ABits(fr.to_bitlist(args[0]), "seq") if not isinstance(args[0], AOpq) else args[0],
                   ABits(fr.to_bitlist(args[1]), "seq") if not isinstance(args[1], AOpq) else args[1], n)
